@@ -60,6 +60,7 @@ type Obs struct {
 	Headers   map[string][]string `json:"headers"`
 	Baseline  map[string][]string `json:"baseline"`
 	Backend   string              `json:"backend_host"`
+	Peer      string              `json:"peer"`
 	Wire      string              `json:"wire,omitempty"`
 }
 
@@ -106,6 +107,7 @@ type connKey struct {
 }
 
 type conn struct {
+	peer     string
 	fill     bool
 	cl       *stack.Client
 	hc       *h2raw.Conn
@@ -117,12 +119,12 @@ var fpKeys = []string{"X-Ja3-Fingerprint", "X-Ja4-Fingerprint", "X-Http2-Fingerp
 var universe = append([]string{"X-Forwarded-For", "X-Forwarded-Host", "X-Forwarded-Proto", "Forwarded", "X-Keep", "X-Multi", "X-Empty",
 	"Connection", "X-Hop", "Te", "Keep-Alive", "Upgrade", "User-Agent", "X-Note", "Accept-Encoding"}, fpKeys...)
 
-func dial(st *stack.Stack, proto, kind string) (*conn, error) {
+func dial(st *stack.Stack, proto, kind, localIP string) (*conn, error) {
 	d := hellospec.Base13()
 	if proto == "h1" {
 		d.ALPN = []string{"http/1.1"}
 	}
-	o := stack.DialOpts{ALPN: d.ALPN}
+	o := stack.DialOpts{ALPN: d.ALPN, LocalIP: localIP}
 	switch kind {
 	case "sni253":
 		d.SNI = strings.Repeat("a", 63) + "." + strings.Repeat("b", 63) + "." + strings.Repeat("c", 63) + "." + strings.Repeat("d", 61)
@@ -288,7 +290,11 @@ func main() {
 					if c != nil {
 						c.cl.Close()
 					}
-					nc, err := dial(st, k.proto, k.kind)
+					peer := "127.0.0.1"
+					if gi%2 == 1 {
+						peer = fmt.Sprintf("127.0.0.%d", 2+gi%200) // any 127/8 address is local on Linux
+					}
+					nc, err := dial(st, k.proto, k.kind, peer)
 					if err != nil {
 						mu.Lock()
 						res = append(res, Obs{ID: sc.ID, Err: "dial: " + err.Error()})
@@ -296,6 +302,7 @@ func main() {
 						continue
 					}
 					c = nc
+					c.peer = peer
 					c.fill = k.fill
 					bo := c.do(st, sc, fmt.Sprintf("g%d-b%d", gi, n), true)
 					if bo.Err != "" || bo.Forwarded != 1 {
@@ -310,6 +317,7 @@ func main() {
 				}
 				o := c.do(st, sc, fmt.Sprintf("g%d-s%d", gi, sc.ID), false)
 				o.Baseline = c.baseline
+				o.Peer = c.peer
 				if st.Backend.Srv != nil {
 					o.Backend = strings.TrimPrefix(st.Backend.Srv.URL, "http://")
 				}
